@@ -174,6 +174,32 @@ PROPS = {
         "trusted_base": COMMON_TB + ["SHA-256 executable model validated on vectors"],
         "assumptions": ["Go regexp leftmost-lazy semantics reduce to 'split at the last colon' for this expression (argued in GoBT/Addr/Bip276.lean)"],
     },
+    "C04": {
+        "manifest": {
+            "text": "Lean 4 theorems on the digest models of C02/C03: forkid_commits (two signing contexts with the same FORKID preimage agree on version, signed outpoint/sequence, script code, spent value, locktime and the three hashed summaries), forkid_summaries_commit (for a collision-free hash the summaries pin down outpoints / sequences / outputs under exactly the ALL/NONE/SINGLE/ANYONECANPAY rules), the non-commitment theorems (other inputs and index under ANYONECANPAY, outputs under NONE, other outputs under SINGLE, spent value under the legacy algorithm). Correspondence: transactions of varied shape are signed through Tx.FillInput/unlocker.Simple with the 12 standard hash types, then every single-field mutation class is applied and the real interpreter's verdict is compared with (a) the Lean interpreter model with executable secp256k1/SHA-256 and (b) the property predicate: accepted iff the digest the hash type commits to is unchanged.",
+            "note": "That a different digest fails verification is ECDSA unforgeability (assumed; observed on every generated case). Trusted: Lean kernel + standard axioms, harness/generators/comparer, driver glue, executable crypto modules validated on vectors and by the correspondence itself.",
+            "technique": "Lean 4 proof over hand-written digest model + executable interpreter/ECDSA model + differential correspondence check with mutation predicate",
+        },
+        "generators": ["C04"],
+        "thorough_seeds": 2,
+        "rule": "6/120 transaction shapes per seed x 12 hash types (a third of them in quick) x ~25 mutation classes incl. the identity. Non-trivial = accepted or rejected by signature verification (trace reaches OP_CHECKSIG).",
+        "nontrivial": lambda op, impl: impl.count("|") >= 4,
+        "trusted_base": COMMON_TB + ["ECDSA unforgeability / SHA-256 collision resistance (hypotheses hinj/hz of forkid_summaries_commit)"],
+        "assumptions": ["a signature does not verify against a different digest (ECDSA)"],
+    },
+    "C06": {
+        "manifest": {
+            "text": "Lean 4 theorems on the interpreter model's signature opcodes: multisigLoop_eq_walk + walk_iff_matches (the CHECKMULTISIG loop succeeds exactly when the signatures match keys in order - an order-preserving injection exists), nulldummy_logic, empty_signature_is_false, encoding_checks_need_flags. Correspondence: fresh signatures (library signing path and raw ECDSA) over varied transactions x key forms x 12 hash types x all 64 subsets of the signature flags x both eras, OP_CODESEPARATOR at every position, exhaustive m-of-n <= 3 multisig arrangements with correct/incorrect/empty signatures; the real interpreter's verdict, error code and every step snapshot must equal the Lean model's (executable secp256k1/DER/SHA-256), and divergence is a property failure.",
+            "note": "Trusted: Lean kernel + standard axioms, harness/generators/comparer, driver glue, executable crypto (validated on go-bk vectors and by agreement on every generated case).",
+            "technique": "executable Lean model + Lean 4 proofs on the multisig matching loop and flag logic + step-by-step differential correspondence check",
+        },
+        "generators": ["C06"],
+        "thorough_seeds": 1,
+        "rule": "CHECKSIG matrix (cases x key forms x hash types x flag subsets x eras), separator positions, multisig arrangements for n<=3 (thorough: n<=4). Non-trivial = trace reaches a signature opcode.",
+        "nontrivial": lambda op, impl: impl.count("|") >= 1,
+        "trusted_base": COMMON_TB,
+        "assumptions": [],
+    },
     "C05": {
         "manifest": {
             "text": "A complete executable Lean model of the interpreter (apply/Step/executeOpcode/CheckErrorCondition, all ~110 non-signature handlers, script numbers, both eras, P2SH re-entry, policy flags; structural recursion over the parsed opcodes) is compared on every run, program by program, with the real interpreter through a recording Debugger: verdict plus the data, alt and conditional stacks, op count, early-return flag and last-code-separator index after every executed instruction. Lean theorems: the regenerated opcode dispatch table, per-era limits and flag bits are the ones the model is written against (kernel-evaluated on every run), OP_RETURN decision logic per era, disabled/reserved opcode rules, element-size rule, combined-stack-depth invariant over every recorded state, minimal-number-encoding characterisation.",
